@@ -1,39 +1,118 @@
 """C03 -- decoder conformance: every spec-valid encoding decodes to the defined value;
 malformed encodings are rejected."""
-import random, re
+import random
 import common as C
 import gen as G
+import codec
 
 MODEL_TARGETS = ["model/De.vo", "spec/Denote.vo", "spec/Encoding.vo"]
 COQ_TARGETS = ["props/C03.vo"]
-THEOREMS = [("C03", [])]
-PROOF_FILES = ["props/C03.v"]
-TRUSTED_BASE = []
-ASSUMPTIONS = []
+THEOREMS = [("C03", ["C03_complete", "C03_long", "C03_long_is_crate", "C03_unbounded_refuted"])]
+PROOF_FILES = ["proofs/DeProofs.v", "proofs/VarintProofs.v", "props/C03.v"]
+TRUSTED_BASE = [
+    "Coq 8.16.1 kernel; no axioms (Print Assumptions: closed)",
+    "spec/{AvroValue,Encoding,Denote}.v written from the Avro specification (values, conformance, every legal block layout, expected callbacks); extracted as the oracle",
+    "hand-written model/De.v, Reader.v, Varint.v of de/deserializer/**, de/read/mod.rs and integer-encoding 4.1.0, tied by the correspondence run (events, consumed bytes, Ok/Err) over valid and malformed inputs and random targets",
+    "extraction (ExtrOcamlBasic) + ocaml/driver.ml; Rust harness (recording visitors)",
+]
+ASSUMPTIONS = [
+    "C03_complete needs lengths/counts/indices below 2^63 (they are written as longs): counts_fit and the length bound; the unbounded statement is refuted (C03_unbounded_refuted)",
+    "soundness (Ok implies a valid encoding was consumed) is not proved; malformed inputs are judged on the crate: targeted malformations must give Err, and model = crate on random mutations",
+    "str::from_utf8 is modelled by the Unicode well-formedness table (model/Utf8.v); rust_decimal Display by decimal_to_string",
+]
+
+INVALID_UTF8 = [b"\xff", b"\xc0\x80", b"\xc1\xbf", b"\xe0\x80\x80", b"\xed\xa0\x80", b"\xf0\x80\x80\x80", b"\xf4\x90\x80\x80", b"\xf8\x88\x80\x80\x80",
+                b"\xc3", b"\xe4\xb8", b"a\x80b", b"\xf0\x9f\x98"]
+
+def targeted(rng):
+    """(schema nodes, bytes, why) that are NOT valid encodings and must be rejected"""
+    out = []
+    N = G.Node
+    for b in [2, 3, 0x7F, 0x80, 0xFF, rng.randrange(2, 256)]:
+        out.append(([N("boolean")], bytes([b]), "boolean byte %d" % b))
+        out.append(([N("array", items=1), N("boolean")], G.varint(2) + bytes([1, b]) + b"\x00", "boolean byte %d in array" % b))
+    for bad in INVALID_UTF8:
+        out.append(([N("string")], G.varint(len(bad)) + bad, "invalid UTF-8 string"))
+        out.append(([N("map", values=1), N("int")], G.varint(1) + G.varint(len(bad)) + bad + G.varint(5) + b"\x00", "invalid UTF-8 map key"))
+        out.append(([N("string", lt="uuid")], G.varint(len(bad)) + bad, "invalid UTF-8 uuid"))
+    for d in [2, 3, 100, -1, -2, 2**31, 2**62, -2**63]:
+        out.append(([N("union", variants=[1, 2]), N("null"), N("int")], G.varint(d) + G.varint(1), "union index %d" % d))
+        out.append(([N("enum", name="E", symbols=["A", "B"])], G.varint(d), "enum index %d" % d))
+    for l in [-1, -2, -64, -2**31, -2**63]:
+        out.append(([N("bytes")], G.varint(l) + b"abc", "negative bytes length %d" % l))
+        out.append(([N("string")], G.varint(l) + b"abc", "negative string length %d" % l))
+        out.append(([N("bytes", lt=("decimal", 0, 5))], G.varint(l) + b"abc", "negative decimal length"))
+    out.append(([N("bytes", lt=("decimal", 0, 5))], G.varint(17) + b"\x00" * 17, "decimal longer than 16 bytes"))
+    out.append(([N("int")], b"\x80\x80\x80\x80\x10", "int out of 32-bit range"))
+    out.append(([N("int")], b"\xff\xff\xff\xff\xff\xff\xff\xff\xff\x02", "varint beyond 64 bits"))
+    out.append(([N("long")], b"\x80" * 10 + b"\x01", "varint of 11 bytes"))
+    # (the byte size after a negative block count is read and discarded when the items are decoded one by one, as the
+    #  reference implementations do; it is only used -- and then checked against the input -- when skipping)
+    return out
 
 def run(ctx):
     rng = random.Random(ctx["seed"] * 1000003 + 3)
-    n = 1500 if ctx["tier"] == "quick" else 60000
+    n = 900 if ctx["tier"] == "quick" else 40000
     pairs = [G.schema_and_value(rng) for _ in range(n)]
-    spec_lines = ["spec %s %s" % (G.schema_sx(nodes), v) for nodes, v in pairs]
-    spec = C.run_parallel(C.AVROMODEL, spec_lines)
-    de_lines, expect = [], []
-    for (nodes, v), s in zip(pairs, spec):
-        p = C.parse_sx(s)[0]
-        assert p[0] == "ok" and p[3] == "1" and p[4] == "1", (s[:200], v[:200])
-        de_lines.append("de %s any %s slice" % (G.schema_sx(nodes), p[1]))
-        expect.append(C.show_sx(p[5]))
-    impl = C.run_parallel(C.AVRODRIVE, de_lines)
-    model = C.run_parallel(C.AVROMODEL, de_lines)
-    violations, diffs, distinct = [], [], set()
-    for line, ri, rm, ex in zip(de_lines, impl, model, expect):
-        if not C.same_outcome(ri, rm):
-            diffs.append({"impl_case": line, "model_case": line, "impl": ri[:600], "model": rm[:600]})
-        got = G.erase_borrow_text(ri)
-        want = "(ok %s 0)" % ex
-        if got != want:
-            violations.append({"impl_case": line, "what": "valid encoding did not decode to the defined value",
-                               "impl": ri[:600], "expected": want[:600]})
+    # exhaustive block layouts of small arrays: every composition of k items x every sign pattern
+    for k in range(0, 5):
+        items = ["(int %d)" % G.rand_int(rng, -2**31, 2**31 - 1) for _ in range(k)]
+        def comps(m):
+            if m == 0:
+                yield []
+                return
+            for first in range(1, m + 1):
+                for rest in comps(m - first):
+                    yield [first] + rest
+        for comp in comps(k):
+            for signs in range(2 ** len(comp)):
+                i, blocks = 0, []
+                for j, c in enumerate(comp):
+                    blocks.append("(blk %d %s)" % ((signs >> j) & 1, " ".join(items[i:i + c])))
+                    i += c
+                pairs.append(([G.Node("array", items=1), G.Node("int")], "(array%s)" % "".join(" " + b for b in blocks)))
+    sp = codec.spec_batch(pairs)
+    lines, meta = [], []
+    for s in sp:
+        enc = C.unhex(s["enc"])
+        for tg, exp in (("any", s["dany"]), ("typed", s["dtyped"])):
+            target = "any" if tg == "any" else s["ttarget"]
+            lines.append("de %s %s %s slice" % (s["schema"], target, s["enc"]))
+            meta.append(("valid-" + tg, "(ok %s 0)" % exp, s))
+        # followed by other data: exactly the encoding is consumed
+        extra = G.rand_bytes(rng, rng.randint(1, 5))
+        lines.append("de %s any %s slice" % (s["schema"], C.hx(enc + extra)))
+        meta.append(("valid-followed", "(ok %s %d)" % (s["dany"], len(extra)), s))
+        # every strict prefix of a valid encoding is not an encoding: premature end
+        if enc:
+            k = rng.randrange(len(enc))
+            lines.append("de %s any %s %s" % (s["schema"], C.hx(enc[:k]), rng.choice(["slice", "(chunks 3)"])))
+            meta.append(("truncated", "err", s))
+    for nodes, b, why in targeted(rng):
+        for mode in ("slice", "(chunks 1)"):
+            lines.append("de %s %s %s %s" % (G.schema_sx(nodes), rng.choice(["any", "any", "str", "i64"]) if "UTF" not in why else rng.choice(["any", "str", "string"]), C.hx(b), mode))
+            meta.append(("malformed: " + why, "err", None))
+    impl, model = codec.both(lines)
+    violations, diffs, samples, distinct = [], [], [], set()
+    from collections import Counter
+    dist = Counter()
+    for line, ri, rm, (kind, want, s) in zip(lines, impl, model, meta):
         distinct.add(line)
-    return {"evaluations": len(de_lines), "distinct_nontrivial": len(distinct), "rule": "wip",
-            "samples": [de_lines[0][:300]], "violations": violations, "model_diffs": diffs}
+        dist[kind.split(":")[0]] += 1
+        if not C.same_outcome(ri, rm):
+            diffs.append(codec.diff_entry(line, ri, rm))
+        if want == "err":
+            if not ri.startswith("(err"):
+                violations.append({"impl_case": line, "what": "%s was not rejected" % kind, "impl": ri[:300]})
+        elif G.erase_borrow_text(ri) != want:
+            violations.append({"impl_case": line, "what": "a valid encoding (%s) did not decode to the defined value" % kind,
+                               "impl": ri[:400], "expected": want[:400]})
+        if len(samples) < 6 and kind.startswith("malformed"):
+            samples.append({"kind": kind, "case": line[:200]})
+    return {"evaluations": len(lines), "distinct_nontrivial": len(distinct),
+            "rule": "valid encodings produced by the extracted specification encoder: random schemas/values with random block layouts, ALL block "
+                    "layouts (compositions x sign patterns) of arrays of 0..4 items, decoded under the dynamic and the typed target, followed by "
+                    "trailing data; strict prefixes (premature end) and targeted malformations (boolean bytes 2..255, 12 ill-formed UTF-8 "
+                    "sequences in strings/keys/uuids, union and enum indices outside the schema incl. negative and huge, negative lengths, "
+                    "over-long varints, oversized decimals) must be rejected; model vs crate on everything",
+            "samples": samples, "violations": violations, "model_diffs": diffs, "distribution": dict(dist), "exhaustive": False}
